@@ -237,26 +237,21 @@ def c09 (v : StepView) : Verdict :=
     if hadRemoved && !sameRemoved then bad "an existing ~removed directory was overwritten" else
     if getBool v.step "files" || clsOf v != "ok" then fine ["c09:n/a"] else
     let entries := v.pre.fs.filter fun e => atOrBelow d e.1
+    -- what `add` itself creates besides directories
+    let own := [pathJoin [d, b!"layerconfig"], pathJoin [buildDir v.pre a0, b!"root", b!".bashrc"]]
     let pristine := entries.all fun e => (pristinePaths v.pre a0 (!l.file.base.isEmpty)).contains e.1
     let survives := entries.all fun e =>
       match e.2 with
       | .dir => true
       | node =>
         let rel := e.1.drop d.length
+        own.contains e.1 ||
         Fs.get v.post.fs e.1 == some node || Fs.get v.post.fs (rm ++ rel) == some node
-    if survives then fine [(if pristine then "c09:pristine" else "c09:preserved")]
-    else if pristine then fine ["c09:pristine-deleted"]
-    else
-      -- recorded finding: deletion is decided by the PROBED state "not yet populated" — the
-      -- state the code computes (model of the probe on the implementation's own pre-state),
-      -- which may differ from the documented one inside other recorded findings
-      let w0 : World := { fs := v.pre.fs, kt := { mnts := v.pre.mnts, nextId := (v.pre.mnts.foldl (fun acc x => max acc x.id) 99) + 1 } }
-      let probed := match (getLayers v.cfg v.users).run.run w0 with
-        | (.ok d, _) => (findLayer d a0).map (·.state)
-        | _ => none
-      if probed == some S_complete then
-        known "remove-deletes-unpopulated-layer-with-data" "remove without -files deleted user data of a layer in state 'not yet populated'"
-      else bad "remove without -files destroyed user data"
+    if survives then
+      fine [(if Fs.lexists v.post.fs rm && !hadRemoved then "c09:renamed"
+             else if !Fs.lexists v.post.fs d then (if pristine then "c09:pristine-deleted" else "c09:dirs-only-deleted")
+             else "c09:kept")]
+    else bad "remove without -files destroyed user data"
 
 /-! ### C03 -/
 
